@@ -6,7 +6,7 @@ use palette::convert::IntoColorUnclamped;
 use palette::encoding;
 use palette::num::{FromScalarArray, IntoScalarArray, PartialCmp};
 use palette::white_point::D65;
-use palette::{Clamp, ClampAssign, LightenAssign, Darken, Hsl, Hsluv, Hsv, Hwb, IsWithinBounds, Lab, Lch, Lchuv, Lighten, Luv, Mix, Oklab, Oklch, Saturate, ShiftHue, Xyz, Yxy};
+use palette::{Alpha, Clamp, ClampAssign, LightenAssign, Darken, Hsl, Hsluv, Hsv, Hwb, IsWithinBounds, Lab, Lch, Lchuv, Lighten, Luv, Mix, Oklab, Oklch, Saturate, ShiftHue, Xyz, Yxy};
 use pvmon::conv_table as ct;
 use pvmon::gen;
 use pvmon::judge;
@@ -53,6 +53,11 @@ type TLchuv<T> = Lchuv<D65, T>;
 type THsluv<T> = Hsluv<D65, T>;
 type TOklab<T> = Oklab<T>;
 type TOklch<T> = Oklch<T>;
+type TOkhsl<T> = palette::Okhsl<T>;
+type TOkhsv<T> = palette::Okhsv<T>;
+type TOkhwb<T> = palette::Okhwb<T>;
+type TJab<T> = palette::cam16::Cam16UcsJab<T>;
+type TJmh<T> = palette::cam16::Cam16UcsJmh<T>;
 
 fn sp(name: &str) -> Space {
     match name {
@@ -360,6 +365,7 @@ macro_rules! masks_and_ops_impl {
         let (a, b, c, d) = (vals(rng), vals(rng), vals(rng), vals(rng));
         let (va, vb, vc, vd) = (V::from_array(a), V::from_array(b), V::from_array(c), V::from_array(d));
         let inp = || json!({"a": a.map(|v| v.d()).to_vec(), "b": b.map(|v| v.d()).to_vec(), "c": c.map(|v| v.d()).to_vec(), "d": d.map(|v| v.d()).to_vec()});
+        let ulp_s = if S::IS32 { 2.4e-7 } else { 4.5e-16 };
         // ---- comparisons, select, lazy_select
         macro_rules! cmp {
             ($op:ident, $sop:tt, $name:expr) => {{
@@ -418,6 +424,91 @@ macro_rules! masks_and_ops_impl {
         m.eval();
         if (0..N).any(|k| un::<_, S>(back[k]).map(f64::to_bits) != un::<_, S>(cols[k]).map(f64::to_bits)) {
             m.violate(&format!("pack/{}", vname), "pack_unpack_not_identity", inp(), json!(null), json!(null), "");
+        }
+        // packing of every colour family, bare and with alpha (each component and the alpha carry distinct values)
+        macro_rules! pack {
+            ($name:expr, $C:ident) => {{
+                let cols: [$C<S>; N] = core::array::from_fn(|k| mk::<$C<S>, S>(&[a[k].d(), b[k].d() + 2.0, c[k].d() + 4.0]));
+                let v: $C<V> = cols.into();
+                let back: [$C<S>; N] = v.into();
+                let acols: [Alpha<$C<S>, S>; N] = core::array::from_fn(|k| Alpha { color: cols[k], alpha: S::f(d[k].d() + 6.0) });
+                let av: Alpha<$C<V>, V> = acols.into();
+                let aback: [Alpha<$C<S>, S>; N] = av.into();
+                // the packed form holds lane k of every component
+                let comp: [V; 3] = cast::into_array(v);
+                let lanes_ok = (0..3).all(|i| { let l = comp[i].into_array(); (0..N).all(|k| l[k].d().to_bits() == un::<_, S>(cols[k])[i].to_bits()) });
+                m.evals(3);
+                if (0..N).any(|k| un::<_, S>(back[k]).map(f64::to_bits) != un::<_, S>(cols[k]).map(f64::to_bits)) || !lanes_ok {
+                    m.violate(&format!("pack:{}/{}", $name, vname), "pack_unpack_not_identity", inp(), json!({"unpacked": back.iter().map(|c| fvec(&un::<_, S>(*c))).collect::<Vec<_>>()}), json!({"packed_from": cols.iter().map(|c| fvec(&un::<_, S>(*c))).collect::<Vec<_>>()}), "");
+                }
+                if (0..N).any(|k| un::<_, S>(aback[k].color).map(f64::to_bits) != un::<_, S>(cols[k]).map(f64::to_bits) || aback[k].alpha.d().to_bits() != acols[k].alpha.d().to_bits()) {
+                    m.violate(&format!("pack_alpha:{}/{}", $name, vname), "pack_unpack_not_identity", inp(), json!({"unpacked": aback.iter().map(|c| (fvec(&un::<_, S>(c.color)), c.alpha.d())).collect::<Vec<_>>()}), json!({"packed_from": acols.iter().map(|c| (fvec(&un::<_, S>(c.color)), c.alpha.d())).collect::<Vec<_>>()}), "");
+                }
+                m.cell_s(&format!("pack{}{}", $name, vname));
+            }};
+        }
+        if it % 4 == 0 {
+            pack!("Srgb", TSrgb);
+            pack!("LinSrgb", TLin);
+            pack!("Hsl", THsl);
+            pack!("Hsv", THsv);
+            pack!("Hwb", THwb);
+            pack!("Xyz", TXyz);
+            pack!("Yxy", TYxy);
+            pack!("Lab", TLab);
+            pack!("Lch", TLch);
+            pack!("Luv", TLuv);
+            pack!("Lchuv", TLchuv);
+            pack!("Hsluv", THsluv);
+            pack!("Oklab", TOklab);
+            pack!("Oklch", TOklch);
+            pack!("Okhsl", TOkhsl);
+            pack!("Okhsv", TOkhsv);
+            pack!("Okhwb", TOkhwb);
+            pack!("Cam16UcsJab", TJab);
+            pack!("Cam16UcsJmh", TJmh);
+        }
+        // hues several turns outside [0, 360): every lane wraps on its own
+        {
+            let hs: [S; N] = core::array::from_fn(|k| S::f(if it % 3 == 0 { (a[k].d() * 9.0).floor() * 360.0 - 1440.0 + b[k].d() * 5.0 } else { a[k].d() * 3000.0 - 1200.0 }));
+            let hv: palette::RgbHue<V> = palette::RgbHue::from(V::from_array(hs));
+            let pos = hv.into_positive_degrees().into_array();
+            let sig = hv.into_degrees().into_array();
+            m.eval();
+            for k in 0..N {
+                let hk = palette::RgbHue::<S>::from(hs[k]);
+                let (wp, ws): (S, S) = (hk.into_positive_degrees(), hk.into_degrees());
+                let t = 8.0 * ulp_s * hs[k].d().abs().max(360.0);
+                let circ = |x: f64, y: f64| { let r = (x - y).rem_euclid(360.0); r.min(360.0 - r) };
+                if !(circ(pos[k].d(), wp.d()) <= t) || !(circ(sig[k].d(), ws.d()) <= t) || !(pos[k].d() >= -t && pos[k].d() <= 360.0 + t) || !(sig[k].d().abs() <= 180.0 + t) {
+                    m.violate(&format!("hue_normal_forms/{}", vname), "lane_differs_from_scalar", json!({"hues": hs.map(|v| v.d()).to_vec(), "lane": k}), json!({"positive": pos[k].d(), "signed": sig[k].d()}), json!({"positive": wp.d(), "signed": ws.d()}), "");
+                    break;
+                }
+            }
+            let sat: [S; N] = core::array::from_fn(|k| S::f(0.25 + 0.5 * b[k].d().max(0.0).min(1.0)));
+            let val: [S; N] = core::array::from_fn(|k| S::f(0.25 + 0.5 * c[k].d().max(0.0).min(1.0)));
+            macro_rules! turns {
+                ($name:expr, $C:ident) => {{
+                    let cols: [$C<S>; N] = core::array::from_fn(|k| mk::<$C<S>, S>(&[hs[k].d(), sat[k].d() * 0.5, val[k].d() * 0.5]));
+                    let v: $C<V> = cols.into();
+                    let out: TSrgb<V> = v.into_color_unclamped();
+                    let got: [TSrgb<S>; N] = out.into();
+                    m.eval();
+                    for k in 0..N {
+                        let w = un::<_, S>(IntoColorUnclamped::<TSrgb<S>>::into_color_unclamped(cols[k]));
+                        let g = un::<_, S>(got[k]);
+                        let t = 64.0 * ulp_s * (1.0 + hs[k].d().abs() / 60.0);
+                        if !(0..3).all(|i| (g[i] - w[i]).abs() <= t) {
+                            m.violate(&format!("{}_many_turns_to_rgb/{}", $name, vname), "lane_differs_from_scalar", json!({"color": fvec(&un::<_, S>(cols[k])), "lane": k}), fvec(&g), fvec(&w), "");
+                            break;
+                        }
+                    }
+                    m.cell_s(&format!("turns{}{}", $name, vname));
+                }};
+            }
+            turns!("Hsv", THsv);
+            turns!("Hsl", THsl);
+            turns!("Hwb", THwb);
         }
         // is_within_bounds: mask lanes equal scalar answers; slice form = AND over the elements, lane by lane
         {
